@@ -23,7 +23,9 @@ structure St where
 def privateRoom : Room := { id := 0, mdate := 1000, admins := [⟨1, 1000, true⟩], auths := [] }
 
 def St.init : St :=
-  { w := { World.empty with now := 1000, peers := [1], rooms := [privateRoom], history := [(1000, privateRoom)] },
+  { w := { World.empty with now := 1000, peers := [1], rooms := [privateRoom], history := [(1000, privateRoom)],
+                            -- room-less system rows: the private room's definition row (900) and the own sys.Peer row (990)
+                            rows := [⟨900, none, 2, 1000⟩, ⟨990, none, 3, 1000⟩] },
     conns := [], known := [0], usedRows := [] }
 
 def d : Serve.Defects := Serve.Defects.asImplemented
@@ -127,7 +129,9 @@ def stepOp (s : St) (kind : String) (toks : List String) : St × String :=
         let grp : Auth := { id := r, mdate := t, users := [], rights := [Right.new t 1 true true], userAdmins := [] }
         let room : Room := { id := r, mdate := t, admins := [⟨own, t, true⟩], auths := [grp] }
         let s1 := atT t
-        (install { s1 with known := r :: s.known } room, "ok")
+        -- the definition row of the room is itself a room-less row (alias 900 + r)
+        let s2 := { s1 with known := r :: s.known, w := { s1.w with rows := s1.w.rows ++ [⟨900 + r, none, 2, t⟩] } }
+        (install s2 room, "ok")
     | _, _ => (s, "bad-op")
   | "member" =>
     match nat? toks "r", nat? toks "k", int? toks "t", flag? toks "en", kv? toks "role" with
@@ -149,13 +153,19 @@ def stepOp (s : St) (kind : String) (toks : List String) : St × String :=
             | none => (atT t, "err:mutation")
     | _, _, _, _, _ => (s, "bad-op")
   | "row" =>
-    match nat? toks "id", nat? toks "r", int? toks "t" with
-    | some id, some r, some t =>
-      if s.usedRows.contains id || (s.w.room? r).isNone || !timeOk t then (s, "bad-op")
+    let room : Option (Option RoomId) := match kv? toks "r" with
+      | some "-" => some none
+      | some x => match x.toNat? with
+        | some r => if (s.w.room? r).isSome then some (some r) else none
+        | none => none
+      | none => none
+    match nat? toks "id", room, int? toks "t" with
+    | some id, some room, some t =>
+      if s.usedRows.contains id || id ≥ 900 || !timeOk t then (s, "bad-op")
       else
         let w := (atT t).w
-        ({ s with usedRows := id :: s.usedRows,
-                  w := { w with rows := w.rows ++ [⟨id, some r, 1, t⟩], logDays := addLogDay w.logDays r (dayOf t) } }, "ok")
+        let logs := match room with | some r => addLogDay w.logDays r (dayOf t) | none => w.logDays
+        ({ s with usedRows := id :: s.usedRows, w := { w with rows := w.rows ++ [⟨id, room, 1, t⟩], logDays := logs } }, "ok")
     | _, _, _ => (s, "bad-op")
   | "ref" | "delref" =>
     match nat? toks "src", nat? toks "dst", int? toks "t" with
@@ -165,17 +175,16 @@ def stepOp (s : St) (kind : String) (toks : List String) : St × String :=
         if !timeOk t then (s, "bad-op")
         else
           let w := (atT t).w
-          let room := ra.room.getD 0
           let has := w.refs.any fun e => e.src = a ∧ e.dst = b
+          let logs := match ra.room with | some r => addLogDay w.logDays r (dayOf t) | none => w.logDays
+          let dels := match ra.room with | some r => w.edgeDels ++ [⟨r, 1, t⟩] | none => w.edgeDels
           if kind = "ref" then
             if has then ({ s with w := w }, "ok")
-            else ({ s with w := { w with refs := w.refs ++ [⟨a, b, t⟩], rows := redate w.rows a t,
-                                         logDays := addLogDay w.logDays room (dayOf t) } }, "ok")
+            else ({ s with w := { w with refs := w.refs ++ [⟨a, b, t⟩], rows := redate w.rows a t, logDays := logs } }, "ok")
           else
             if has then
               ({ s with w := { w with refs := w.refs.filter (fun e => !(e.src = a ∧ e.dst = b)), rows := redate w.rows a t,
-                                      edgeDels := w.edgeDels ++ [⟨room, 1, t⟩],
-                                      logDays := addLogDay w.logDays room (dayOf t) } }, "ok")
+                                      edgeDels := dels, logDays := logs } }, "ok")
             else ({ s with w := { w with rows := redate w.rows a t } }, "ok")
       | _, _ => (s, "bad-op")
     | _, _, _ => (s, "bad-op")
@@ -187,11 +196,11 @@ def stepOp (s : St) (kind : String) (toks : List String) : St × String :=
         if !timeOk t then (s, "bad-op")
         else
           let w := (atT t).w
-          let room := x.room.getD 0
+          let logs := match x.room with | some r => addLogDay w.logDays r (dayOf t) | none => w.logDays
+          let dels := match x.room with | some r => w.nodeDels ++ [⟨r, 1, t⟩] | none => w.nodeDels
           ({ s with w := { w with rows := w.rows.filter (·.id ≠ id),
                                   refs := w.refs.filter (fun e => e.src ≠ id ∧ e.dst ≠ id),
-                                  nodeDels := w.nodeDels ++ [⟨room, 1, t⟩],
-                                  logDays := addLogDay w.logDays room (dayOf t) } }, "ok")
+                                  nodeDels := dels, logDays := logs } }, "ok")
       | none => (s, "bad-op")
     | _, _ => (s, "bad-op")
   | "open" =>
